@@ -16,7 +16,6 @@ import re
 import shutil
 import struct
 import subprocess
-import sys
 from concurrent.futures import ProcessPoolExecutor
 
 from . import build
